@@ -19,6 +19,7 @@ Inductive mcfg :=
 
 Inductive ccase :=
 | CFrom (t : ctype) (input : string) (r : cres)
+| CFromZeros (t : ctype) (n : Z) (r : cres)          (* FromBytes of n zero bytes: long inputs without long literals *)
 | CTo (t : ctype) (ints : list Z) (blobs : list string) (out : string)
 | CFromChunks (chunks : list (Z * Z * string)) (r : cres)
 | CToChunks (ints : list Z) (blobs : list string) (chunks : list (Z * Z * string))
@@ -116,6 +117,7 @@ Definition model_match (m : mcfg) (p : list byte) : verdict :=
 Definition check (c : ccase) : bool :=
   match c with
   | CFrom t input r => view_eqb (model_from t (unhex input)) r
+  | CFromZeros t n r => view_eqb (model_from t (repeat x00 (Z.to_nat n))) r
   | CTo t i b out => bytes_eqb (model_to t i (map unhex b)) (unhex out)
   | CFromChunks cs r => view_eqb (vmap (auth_from_chunks (map mk_chunk cs)) auth_view) r
   | CToChunks i b cs => chunks_eqb (auth_to_chunks (mk_auth i (map unhex b))) (map mk_chunk cs)
